@@ -33,7 +33,19 @@ var tagRef = [nTags][]string{{"0"}, {"a", "1"}, {"b", "2"}}
 
 type rawSeries struct {
 	tags  [nTags]int64
-	slots [][]int64 // events per absolute slot (origin = start - prePad*step)
+	times []int64   // ascending
+	evs   [][]int64 // events recorded at times[i]
+}
+
+// the row of the slot [t, t+lodStep): all events recorded in it
+func (r *rawSeries) eventsAt(t, lodStep int64) []int64 {
+	var res []int64
+	for i, x := range r.times {
+		if t <= x && x < t+lodStep {
+			res = append(res, r.evs[i]...)
+		}
+	}
+	return res
 }
 
 type srs struct { // a series as served / returned
@@ -43,8 +55,6 @@ type srs struct { // a series as served / returned
 
 type stub struct {
 	metric *format.MetricMetaValue
-	origin int64
-	step   int64
 	data   []rawSeries
 	// recorded from the last QuerySeries
 	ts     data_model.Timescale
@@ -148,7 +158,7 @@ func (s *stub) QuerySeries(_ context.Context, qry *promql.SeriesQuery) (promql.S
 	var keys []key
 	rows := map[key][]mrow{}
 	n := len(qry.Timescale.Time)
-	lodStep := qry.Timescale.LODs[len(qry.Timescale.LODs)-1].Step
+	lodSteps := pointSteps(qry.Timescale)
 	for _, r := range s.data {
 		var k key
 		for g := 0; g < nTags; g++ {
@@ -161,11 +171,9 @@ func (s *stub) QuerySeries(_ context.Context, qry *promql.SeriesQuery) (promql.S
 			keys = append(keys, k)
 		}
 		for i, t := range qry.Timescale.Time {
-			slot := (t - s.origin) / s.step
-			if (t-s.origin)%s.step != 0 || slot < 0 || int(slot) >= len(r.slots) {
-				continue
+			if i < len(lodSteps) {
+				rows[k][i].add(r.eventsAt(t, lodSteps[i]))
 			}
-			rows[k][i].add(r.slots[slot])
 		}
 	}
 	s.served = nil
@@ -174,7 +182,11 @@ func (s *stub) QuerySeries(_ context.Context, qry *promql.SeriesQuery) (promql.S
 		anyRow := false
 		for i := range v {
 			if rows[k][i].any {
-				v[i] = rows[k][i].value(s.what, step, lodStep)
+				qs := step
+				if qs == 0 {
+					qs = lodSteps[i]
+				}
+				v[i] = rows[k][i].value(s.what, qs, lodSteps[i])
 				anyRow = true
 			} else {
 				v[i] = promql.NilValue
@@ -196,6 +208,30 @@ func (s *stub) QuerySeries(_ context.Context, qry *promql.SeriesQuery) (promql.S
 	}
 	res.Meta.Total = len(res.Data)
 	return res, func() {}, nil
+}
+
+// LOD step of every point of the axis
+func pointSteps(ts data_model.Timescale) []int64 {
+	var res []int64
+	for _, l := range ts.LODs {
+		for i := 0; i < l.Len; i++ {
+			res = append(res, l.Step)
+		}
+	}
+	return res
+}
+
+// first index of the LOD every point belongs to
+func pointLODStart(ts data_model.Timescale) []int {
+	var res []int
+	x := 0
+	for _, l := range ts.LODs {
+		for i := 0; i < l.Len; i++ {
+			res = append(res, x)
+		}
+		x += l.Len
+	}
+	return res
 }
 
 // ---------------------------------------------------------------- expressions
@@ -244,7 +280,11 @@ func (e expr) text() string {
 		case "subq":
 			s = fmt.Sprintf("%s[%ds:]", s, n.rng)
 		case "call":
-			s = n.op + "_over_time(" + s + ")"
+			if n.op == "qot" {
+				s = fmt.Sprintf("quantile_over_time(%s, %s)", fmtFloat(n.q), s)
+			} else {
+				s = n.op + "_over_time(" + s + ")"
+			}
 		case "agg":
 			grp := ""
 			if n.hasGrp {
@@ -292,7 +332,14 @@ func chainCoq(ch []node) string {
 		case "subq":
 			p = append(p, fmt.Sprintf("NSubquery %d", n.rng))
 		case "call":
-			p = append(p, "NCall "+fnCoq[n.op])
+			switch n.op {
+			case "qot":
+				p = append(p, fmt.Sprintf("NCallQ (Qmake %d %d%%positive)", n.qn, n.qd))
+			case "present":
+				p = append(p, "NPresent")
+			default:
+				p = append(p, "NCall "+fnCoq[n.op])
+			}
 		case "agg":
 			p = append(p, fmt.Sprintf("NAgg %s (Qmake %d %d%%positive) %s %s", aggCoq[n.op], n.qn, n.qd, vu.B(n.without), natList(n.g)))
 		}
@@ -402,8 +449,11 @@ type world struct {
 	ng      promql.Engine
 	start   int64
 	end     int64
-	step    int64
+	step    int64 // requested step = step of the finest LOD
+	now     int64
+	coarse  int64 // step of the coarse LOD of a two-LOD world, 0 otherwise
 	counter bool
+	base    []srs // result of the bare selector at creation (data_not_mutated)
 }
 
 type result struct {
@@ -420,7 +470,7 @@ type result struct {
 func (w *world) run(q string) result {
 	w.st.calls = 0
 	v, cancel, err := w.ng.Exec(context.Background(), w.st, promql.Query{Start: w.start, End: w.end, Step: w.step, Expr: q,
-		Options: promql.Options{TimeNow: w.end + w.step, Mode: data_model.RangeQuery}})
+		Options: promql.Options{TimeNow: w.now, Mode: data_model.RangeQuery}})
 	if err != nil {
 		return result{err: err.Error()}
 	}
@@ -445,13 +495,17 @@ func (w *world) run(q string) result {
 	return r
 }
 
-// uniform single-LOD axis with the requested step?
-func uniform(ts data_model.Timescale, step int64) bool {
-	if len(ts.LODs) != 1 || ts.LODs[0].Step != step || ts.Step != step || len(ts.Time) == 0 {
+// every LOD uniform with its own step, LODs contiguous, the last LOD has the requested step, point count consistent
+func axisOK(ts data_model.Timescale, step int64) bool {
+	if len(ts.LODs) == 0 || len(ts.LODs) > 2 || ts.LODs[len(ts.LODs)-1].Step != step || ts.Step != step {
+		return false
+	}
+	ps := pointSteps(ts)
+	if len(ps) != len(ts.Time) || len(ps) == 0 {
 		return false
 	}
 	for i := 1; i < len(ts.Time); i++ {
-		if ts.Time[i]-ts.Time[i-1] != step {
+		if ts.Time[i]-ts.Time[i-1] != ps[i-1] {
 			return false
 		}
 	}
@@ -569,7 +623,12 @@ func refAgg(n node, l []srs, lenient bool) []srs {
 			}
 			v, defined := aggDef(n.op, n.q, col)
 			if !defined && lenient {
-				v = math.Inf(1) // "any": compared leniently
+				v = anyV // compared leniently
+			}
+			for _, x := range col {
+				if isAny(x) {
+					v = anyV
+				}
 			}
 			out.vals[i] = v
 		}
@@ -578,28 +637,42 @@ func refAgg(n node, l []srs, lenient bool) []srs {
 	return res
 }
 
-// over-time definition on a uniform grid: the window of the point i is the trailing c points, c = ceil(w/s)
-// (non-strict: avg, min, max, last) or max(1, floor(w/s)) (strict: sum, count, stdvar, stddev; no window at all
-// when w < s); points whose window does not lie strictly inside the axis (first index >= 1) are missing.
-func refOverTime(fn string, w, s int64, v []float64) []float64 {
-	strict := fn == "sum" || fn == "count" || fn == "stdvar" || fn == "stddev"
+// "any value" marker of the reference (compared leniently; contagious)
+var anyV = math.Inf(1)
+
+func isAny(v float64) bool { return math.IsInf(v, 1) }
+
+// over-time definition: the window of the point i is the trailing c points, c = ceil(w/s) (non-strict: avg, min,
+// max, last) or max(1, floor(w/s)) (strict: sum, count, stdvar, stddev, quantile; no window at all when w < s),
+// s = the LOD step of the point; points whose window does not lie strictly inside the axis (first index >= 1) are
+// missing.  Where the window (or the point before it) reaches into another LOD the definition is left open.
+func refOverTime(fn string, q float64, w int64, ts data_model.Timescale, v []float64) []float64 {
+	strict := fn == "sum" || fn == "count" || fn == "stdvar" || fn == "stddev" || fn == "qot"
 	nilv := math.NaN()
 	if fn == "count" {
 		nilv = 0
 	}
-	var c int64
-	if strict {
-		c = w / s
-		if c < 1 {
-			c = 1
-		}
-	} else {
-		c = (w + s - 1) / s
-	}
+	steps := pointSteps(ts)
+	lodStart := pointLODStart(ts)
 	res := make([]float64, len(v))
 	for i := range v {
-		if int64(i) < c { // moveOneLeft never accepts a window that starts at index 0 (the axis is widened by the range)
-			res[i] = math.NaN()
+		s := steps[i]
+		var c int64
+		if strict {
+			c = w / s
+			if c < 1 {
+				c = 1
+			}
+		} else {
+			c = (w + s - 1) / s
+		}
+		if lodStart[i] == 0 {
+			if int64(i) < c { // moveOneLeft never accepts a window that starts at index 0 (the axis is widened by the range)
+				res[i] = math.NaN()
+				continue
+			}
+		} else if int64(i)-c < int64(lodStart[i]) {
+			res[i] = anyV
 			continue
 		}
 		if strict && w < s {
@@ -607,6 +680,16 @@ func refOverTime(fn string, w, s int64, v []float64) []float64 {
 			continue
 		}
 		win := v[int64(i)-c+1 : i+1]
+		hasAny := false
+		for _, x := range win {
+			if isAny(x) {
+				hasAny = true
+			}
+		}
+		if hasAny {
+			res[i] = anyV
+			continue
+		}
 		p := presentOf(win)
 		if len(p) == 0 {
 			res[i] = nilv
@@ -615,8 +698,29 @@ func refOverTime(fn string, w, s int64, v []float64) []float64 {
 		switch fn {
 		case "last":
 			res[i] = p[len(p)-1]
+		case "qot":
+			res[i], _ = aggDef("quantile", q, win)
 		default:
 			res[i], _ = aggDef(fn, 0, win)
+		}
+	}
+	return res
+}
+
+// present_over_time: 1 where a point exists within the last w seconds, missing otherwise
+func refPresent(w int64, ts data_model.Timescale, v []float64) []float64 {
+	res := make([]float64, len(v))
+	for i := range v {
+		res[i] = math.NaN()
+		for j := i; j >= 0 && ts.Time[i]-ts.Time[j] <= w; j-- {
+			if isAny(v[j]) {
+				res[i] = anyV
+				break
+			}
+			if !isNaN(v[j]) {
+				res[i] = 1
+				break
+			}
 		}
 	}
 	return res
@@ -625,7 +729,7 @@ func refOverTime(fn string, w, s int64, v []float64) []float64 {
 // set by refEval when a quantile node was given an input with a missing point
 var quantileSawMissing bool
 
-func refEval(ch []node, step int64, l []srs) []srs {
+func refEval(ch []node, ts data_model.Timescale, l []srs) []srs {
 	var evr int64
 	lastX := -1
 	for i, n := range ch {
@@ -640,7 +744,11 @@ func refEval(ch []node, step int64, l []srs) []srs {
 		case "call":
 			out := make([]srs, len(l))
 			for i, s := range l {
-				out[i] = srs{tags: s.tags, vals: refOverTime(n.op, evr, step, s.vals)}
+				if n.op == "present" {
+					out[i] = srs{tags: s.tags, vals: refPresent(evr, ts, s.vals)}
+				} else {
+					out[i] = srs{tags: s.tags, vals: refOverTime(n.op, n.q, evr, ts, s.vals)}
+				}
 			}
 			l = out
 			evr = 0
@@ -660,16 +768,25 @@ func refEval(ch []node, step int64, l []srs) []srs {
 	return l
 }
 
+// set by refFinish when the reference cannot tell whether a series is empty
+var refUndecided bool
+
 func refFinish(ts data_model.Timescale, l []srs) []srs {
+	refUndecided = false
 	var res []srs
 	for _, s := range l {
-		keep := false
+		keep, open := false, false
 		for _, v := range s.vals[ts.ViewStartX:ts.ViewEndX] {
-			if !isNaN(v) {
+			if isAny(v) {
+				open = true
+			} else if !isNaN(v) {
 				keep = true
 			}
 		}
-		if keep {
+		if open && !keep {
+			refUndecided = true // whether the series survives depends on values the reference leaves open
+		}
+		if keep || open {
 			res = append(res, srs{tags: s.tags, vals: s.vals[ts.StartX:]})
 		}
 	}
@@ -678,6 +795,9 @@ func refFinish(ts data_model.Timescale, l []srs) []srs {
 }
 
 func sameLenient(got, want []srs) bool {
+	if refUndecided {
+		return true
+	}
 	if len(got) != len(want) {
 		return false
 	}
@@ -729,13 +849,13 @@ func classAgg(op, w string) string {
 	return ""
 }
 
-func classCall(fn string, r, step int64) string {
+func classCall(fn string, r, step int64) string { // step = the coarsest LOD step
 	switch fn {
 	case "count":
 		return "/count_over_time"
 	case "stdvar", "stddev":
 		return "/stdvar_over_time"
-	case "last":
+	case "last", "qot", "present":
 		return ""
 	}
 	if r < step {
@@ -746,7 +866,7 @@ func classCall(fn string, r, step int64) string {
 
 // the class of the (possibly) non-preserving pushdown an expression contains, "" when every pushdown the
 // reduction rules may apply to it is one that preserves results
-func reductionClass(e expr, counter bool, step int64) string {
+func reductionClass(e expr, counter bool, step, stepMax int64) string {
 	w := effWhat(e, counter)
 	var ns []node
 	for _, n := range e.chain {
@@ -763,13 +883,13 @@ func reductionClass(e expr, counter bool, step int64) string {
 			return c
 		}
 		if len(ns) >= 3 && ns[1].kind == "subq" && ns[2].kind == "call" && ns[1].rng <= step {
-			return classCall(ns[2].op, ns[1].rng, step)
+			return classCall(ns[2].op, ns[1].rng, stepMax)
 		}
 	case "matrix":
 		if ns[0].rng > step || len(ns) < 2 || ns[1].kind != "call" {
 			return ""
 		}
-		if c := classCall(ns[1].op, ns[0].rng, step); c != "" {
+		if c := classCall(ns[1].op, ns[0].rng, stepMax); c != "" {
 			return c
 		}
 		if len(ns) >= 3 && ns[2].kind == "agg" {
@@ -804,7 +924,7 @@ func genGrouping(r *vu.Rng, n *node) {
 }
 
 var aggOps = []string{"sum", "sum", "min", "max", "avg", "count", "group", "stdvar", "stddev", "quantile", "topk", "bottomk"}
-var otFns = []string{"avg", "min", "max", "sum", "sum", "count", "stdvar", "stddev", "last"}
+var otFns = []string{"avg", "min", "max", "sum", "sum", "count", "stdvar", "stddev", "last", "qot", "qot", "present"}
 var whats = []string{"", "", "", "avg", "count", "countsec", "min", "max", "sum", "sumsec", "stdvar"}
 
 func genAgg(r *vu.Rng, allowOrderDependent bool) node {
@@ -832,7 +952,23 @@ func genAgg(r *vu.Rng, allowOrderDependent bool) node {
 	return n
 }
 
-func genRange(r *vu.Rng, step int64) int64 {
+func genRange(r *vu.Rng, step, coarse int64) int64 {
+	if coarse != 0 && r.Chance(55) { // two LODs: between the steps, equal to the coarse one, its multiples, around it
+		switch r.Intn(6) {
+		case 0:
+			return coarse / 2
+		case 1:
+			return coarse
+		case 2:
+			return 2 * coarse
+		case 3:
+			return step + int64(r.Intn(int(coarse-step)))
+		case 4:
+			return coarse + step
+		default:
+			return coarse - step
+		}
+	}
 	switch r.Intn(8) {
 	case 0, 1, 2:
 		return step
@@ -873,18 +1009,28 @@ func pairedAgg(r *vu.Rng, fn string, allowOrderDependent bool) node {
 	return n
 }
 
-func genExpr(r *vu.Rng, step int64) expr {
+func genExpr(r *vu.Rng, step, coarse int64) expr {
 	e := expr{what: whats[r.Intn(len(whats))]}
 	var ch []node
 	fn := otFns[r.Intn(len(otFns))]
-	call := func() {
-		ch = append(ch, node{kind: "call", op: fn})
+	form := r.Intn(10)
+	if fn == "present" && form >= 8 { // NilValue bits are only what the storage serves: present_over_time over a selector only
+		fn = "last"
 	}
-	rng := genRange(r, step)
+	call := func() {
+		n := node{kind: "call", op: fn, qn: 0, qd: 1}
+		if fn == "qot" {
+			qs := [][2]int64{{0, 1}, {1, 4}, {1, 2}, {3, 4}, {1, 1}}
+			c := qs[r.Intn(len(qs))]
+			n.qn, n.qd, n.q = c[0], c[1], float64(c[0])/float64(c[1])
+		}
+		ch = append(ch, n)
+	}
+	rng := genRange(r, step, coarse)
 	if r.Chance(35) {
 		rng = step
 	}
-	switch r.Intn(10) {
+	switch form {
 	case 0: // selector
 	case 1, 2, 3: // agg(sel)
 		ch = maybeParen(r, ch)
@@ -925,19 +1071,76 @@ func genExpr(r *vu.Rng, step int64) expr {
 	return e
 }
 
-func genWorld(r *vu.Rng) *world {
-	steps := []int64{1, 5, 15, 60, 60}
-	step := steps[r.Intn(len(steps))]
-	npts := int64(3 + r.Intn(5))
-	start := int64(1700000000) / 3600 * 3600
-	w := &world{start: start, end: start + npts*step, step: step, counter: r.Chance(30)}
+func (w *world) stepMax() int64 {
+	if w.coarse != 0 {
+		return w.coarse
+	}
+	return w.step
+}
+
+func genEvents(r *vu.Rng, density int) []int64 {
+	var ev []int64
+	if r.Chance(density) {
+		cnts := []int{1, 1, 2, 2, 4, 3}
+		for c := cnts[r.Intn(len(cnts))]; c > 0; c-- {
+			ev = append(ev, int64(r.Intn(17))-4)
+		}
+	}
+	return ev
+}
+
+func newMetric(counter bool) *format.MetricMetaValue {
 	kind := format.MetricKindValue
-	if w.counter {
+	if counter {
 		kind = format.MetricKindCounter
 	}
 	m := &format.MetricMetaValue{MetricID: 1, Name: "m", Kind: kind, Tags: []format.MetricMetaTag{{}, {Name: "a"}, {Name: "b"}}}
 	_ = m.RestoreCachedInfo()
-	st := &stub{metric: m, origin: start - prePad*step, step: step}
+	return m
+}
+
+func genWorld(r *vu.Rng) *world {
+	w := &world{counter: r.Chance(30)}
+	var times []int64
+	if r.Chance(35) {
+		// two LODs: the query straddles a resolution switch of data_model.lodLevels
+		// (now-52h+2s: 1m -> finer; now-33d+2m: 1h -> finer)
+		type sw struct{ rel, coarse int64 }
+		var c sw
+		var fine int64
+		if r.Chance(70) {
+			c = sw{52*3600 - 2, 60}
+			fine = []int64{1, 5, 15}[r.Intn(3)]
+		} else {
+			c = sw{33*86400 - 120, 3600}
+			fine = []int64{60, 300}[r.Intn(2)]
+		}
+		edge := int64(1700000000) / 3600 * 3600
+		w.now = edge + c.rel
+		w.step, w.coarse = fine, c.coarse
+		w.start = edge - c.coarse*int64(1+r.Intn(2))
+		w.end = edge + fine*int64(3+r.Intn(5))
+		for k := int64(12); k >= 1; k-- {
+			times = append(times, edge-k*c.coarse)
+			if r.Chance(15) {
+				times = append(times, edge-k*c.coarse+fine*int64(1+r.Intn(3)))
+			}
+		}
+		for t := edge; t < w.end+3*fine; t += fine {
+			times = append(times, t)
+		}
+	} else {
+		steps := []int64{1, 5, 15, 60, 60}
+		w.step = steps[r.Intn(len(steps))]
+		npts := int64(3 + r.Intn(5))
+		w.start = int64(1700000000) / 3600 * 3600
+		w.end = w.start + npts*w.step
+		w.now = w.end + w.step
+		for i := int64(-prePad); i < npts+2; i++ {
+			times = append(times, w.start+i*w.step)
+		}
+	}
+	st := &stub{metric: newMetric(w.counter)}
 	ns := 1 + r.Intn(5)
 	seen := map[[nTags]int64]bool{}
 	for len(st.data) < ns {
@@ -948,36 +1151,33 @@ func genWorld(r *vu.Rng) *world {
 		seen[tg] = true
 		rs := rawSeries{tags: tg}
 		density := 40 + r.Intn(60)
-		for i := int64(0); i < prePad+npts+2; i++ {
-			var ev []int64
-			if r.Chance(density) {
-				cnts := []int{1, 1, 2, 2, 4, 3}
-				for c := cnts[r.Intn(len(cnts))]; c > 0; c-- {
-					ev = append(ev, int64(r.Intn(17))-4)
-				}
+		if r.Chance(35) {
+			density = 100 // dense series: windows without a missing point
+		}
+		for _, t := range times {
+			if ev := genEvents(r, density); len(ev) != 0 {
+				rs.times = append(rs.times, t)
+				rs.evs = append(rs.evs, ev)
 			}
-			rs.slots = append(rs.slots, ev)
 		}
 		st.data = append(st.data, rs)
 	}
 	w.st = st
 	w.ng = promql.NewEngine(time.UTC, 0)
+	if b := w.run(`m{__by__="0,1,2"}`); b.ok {
+		w.base = b.series
+	}
 	return w
 }
 
 func (w *world) dataCoq(ts data_model.Timescale) (string, bool) {
-	off := (ts.Time[0] - w.st.origin) / w.step
-	if off < 0 || (ts.Time[0]-w.st.origin)%w.step != 0 {
-		return "", false
-	}
+	steps := pointSteps(ts)
 	var p []string
-	for _, rs := range w.st.data {
-		if int(off)+len(ts.Time) > len(rs.slots) {
-			return "", false
-		}
+	for i := range w.st.data {
+		rs := &w.st.data[i]
 		var sl []string
-		for _, ev := range rs.slots[off : int(off)+len(ts.Time)] {
-			sl = append(sl, vu.ListZ(ev))
+		for j, t := range ts.Time {
+			sl = append(sl, vu.ListZ(rs.eventsAt(t, steps[j])))
 		}
 		p = append(p, fmt.Sprintf("R %s [%s]", vu.ListZ(rs.tags[:]), strings.Join(sl, ";")))
 	}
@@ -985,18 +1185,24 @@ func (w *world) dataCoq(ts data_model.Timescale) (string, bool) {
 }
 
 func queryCoq(w *world, ts data_model.Timescale) string {
-	return fmt.Sprintf("(Y %s %d%%nat %d %d%%nat %d %d %d %d)", vu.B(w.counter), nTags, ts.Time[0], len(ts.Time), w.step, ts.StartX, ts.ViewStartX, ts.ViewEndX)
+	var lods []string
+	x := 0
+	for _, l := range ts.LODs {
+		lods = append(lods, fmt.Sprintf("(%d,%d,%d%%nat)", ts.Time[x], l.Step, l.Len))
+		x += l.Len
+	}
+	return fmt.Sprintf("(Y %s %d%%nat %d [%s] %d %d %d)", vu.B(w.counter), nTags, ts.Step, strings.Join(lods, ";"), ts.StartX, ts.ViewStartX, ts.ViewEndX)
 }
 
 func dataText(w *world) string {
 	var p []string
 	for _, rs := range w.st.data {
 		var sl []string
-		for _, ev := range rs.slots {
+		for i, ev := range rs.evs {
 			s := fmt.Sprint(ev)
-			sl = append(sl, strings.ReplaceAll(s[1:len(s)-1], " ", ","))
+			sl = append(sl, fmt.Sprintf("%d:%s", rs.times[i]-w.start, strings.ReplaceAll(s[1:len(s)-1], " ", ",")))
 		}
-		p = append(p, fmt.Sprintf("%d.%d.%d:%s", rs.tags[0], rs.tags[1], rs.tags[2], strings.Join(sl, "|")))
+		p = append(p, fmt.Sprintf("%d.%d.%d@%s", rs.tags[0], rs.tags[1], rs.tags[2], strings.Join(sl, "|")))
 	}
 	return strings.Join(p, " ")
 }
@@ -1028,7 +1234,7 @@ func doCase(o *vu.Out, w *world, e expr, seedTag string) {
 	if !w.counter {
 		kind = "value"
 	}
-	input := fmt.Sprintf("%s step=%d n=%d kind=%s expr=%s data=%s", seedTag, w.step, (w.end-w.start)/w.step, kind, e.text(), dataText(w))
+	input := fmt.Sprintf("%s step=%d coarse=%d range=[%d,%d) kind=%s expr=%s data=%s", seedTag, w.step, w.coarse, w.start, w.end, kind, e.text(), dataText(w))
 	if len(input) > 380 {
 		input = input[:380] + "..."
 	}
@@ -1037,7 +1243,7 @@ func doCase(o *vu.Out, w *world, e expr, seedTag string) {
 		o.Hist["skip/error"]++
 		return
 	}
-	if !uniform(got.ts, w.step) {
+	if !axisOK(got.ts, w.step) {
 		o.Hist["skip/axis"]++
 		return
 	}
@@ -1050,7 +1256,7 @@ func doCase(o *vu.Out, w *world, e expr, seedTag string) {
 	last, hasLast := outermost(e)
 	top := hasLast && last.kind == "agg" && (last.op == "topk" || last.op == "bottomk")
 	stddev := hasOp(e, "stddev")
-	kinds := []string{"form/" + formOf(e)}
+	kinds := []string{"form/" + formOf(e), fmt.Sprintf("lods/%d", len(got.ts.LODs))}
 	if reduced {
 		kinds = append(kinds, "reduced")
 	}
@@ -1091,7 +1297,7 @@ func doCase(o *vu.Out, w *world, e expr, seedTag string) {
 	if !e.by {
 		ur = w.run(un.text())
 	}
-	if !ur.ok || !uniform(ur.ts, w.step) || len(ur.ts.Time) != len(got.ts.Time) {
+	if !ur.ok || !axisOK(ur.ts, w.step) || len(ur.ts.Time) != len(got.ts.Time) {
 		o.Hist["skip/unreduced"]++
 		return
 	}
@@ -1120,17 +1326,20 @@ func doCase(o *vu.Out, w *world, e expr, seedTag string) {
 			}
 		}
 		quantileSawMissing = false
-		want := refFinish(ur.ts, refEval(un.chain, w.step, ur.served))
+		want := refFinish(ur.ts, refEval(un.chain, ur.ts, ur.served))
 		if !sameLenient(ur.series, want) {
 			name := defOracle(un)
 			if quantileSawMissing {
 				name = "agg_def/quantile_missing_points"
 			}
+			if hasOp(un, "present") {
+				name = "over_time_def/present_inverted"
+			}
 			o.Fail(name, line, input)
 		}
 	} else {
 		quantileSawMissing = false
-		want := refFinish(ur.ts, refEval(un.chain, w.step, ur.served))
+		want := refFinish(ur.ts, refEval(un.chain, ur.ts, ur.served))
 		if !sameLenient(ur.series, want) {
 			if verbose {
 				fmt.Println("DEF FAIL", un.text(), "ts", ur.ts.Time, ur.ts.StartX, ur.ts.ViewStartX, ur.ts.ViewEndX)
@@ -1142,19 +1351,28 @@ func doCase(o *vu.Out, w *world, e expr, seedTag string) {
 			if quantileSawMissing {
 				name = "agg_def/quantile_missing_points"
 			}
+			if hasOp(un, "present") {
+				name = "over_time_def/present_inverted"
+			}
 			o.Fail(name, line, input)
+		}
+	}
+	// (1b) evaluating an expression leaves the data alone: the bare selector still evaluates to what it did
+	if w.base != nil {
+		if b := w.run(`m{__by__="0,1,2"}`); !b.ok || !sameSets(b.series, w.base) {
+			o.Fail("data_not_mutated", line, input)
 		}
 	}
 	// (2) reductions preserve results
 	if !e.by && !sameSets(got.series, ur.series) {
-		cls := reductionClass(e, w.counter, w.step)
+		cls := reductionClass(e, w.counter, w.step, w.stepMax())
 		if cls == "" && !top && !stddev && quantileSawMissing {
 			cls = "/quantile_missing_points" // the index permutation of funcQuantile depends on the NaNs of earlier timestamps
 		}
 		o.Fail("reduction_preserves"+cls, line, input)
 	}
 	if reduced {
-		o.Hist["class"+reductionClass(e, w.counter, w.step)+"/"]++
+		o.Hist["class"+reductionClass(e, w.counter, w.step, w.stepMax())+"/"]++
 	}
 }
 
@@ -1199,11 +1417,15 @@ func defOracle(e expr) string {
 // topk/bottomk: the result is, per group, min(k, |group|) of the inner series (unchanged), none of them beaten by
 // an inner series left out; weights as documented in evaluator.weight
 func checkTopK(o *vu.Out, line int, input string, w *world, un expr, last node, ur result) {
+	topName := "agg_def/" + last.op
+	if hasOp(un, "present") {
+		topName = "over_time_def/present_inverted" // the argument is not what the definition says (F-C27g)
+	}
 	ch := un.chain
 	for len(ch) > 0 && ch[len(ch)-1].kind == "paren" {
 		ch = ch[:len(ch)-1]
 	}
-	inner := refEval(ch[:len(ch)-1], w.step, ur.served)
+	inner := refEval(ch[:len(ch)-1], ur.ts, ur.served)
 	ts := ur.ts
 	var live []srs
 	for _, s := range inner {
@@ -1214,9 +1436,16 @@ func checkTopK(o *vu.Out, line int, input string, w *world, un expr, last node, 
 			}
 		}
 	}
+	for _, s := range inner {
+		for _, v := range s.vals {
+			if isAny(v) {
+				return // the reference leaves a value of the argument open (window across a LOD switch)
+			}
+		}
+	}
 	if last.k <= 0 {
 		if len(ur.series) != 0 {
-			o.Fail("agg_def/"+last.op, line, input)
+			o.Fail(topName, line, input)
 		}
 		return
 	}
@@ -1232,7 +1461,7 @@ func checkTopK(o *vu.Out, line int, input string, w *world, un expr, last node, 
 	total := 0
 	bad := false
 	for _, g := range groups {
-		ws := refWeights(g, ts, w.step)
+		ws := refWeights(g, ts)
 		n := last.k
 		if len(g) < n {
 			n = len(g)
@@ -1267,20 +1496,22 @@ func checkTopK(o *vu.Out, line int, input string, w *world, un expr, last node, 
 		bad = true
 	}
 	if bad {
-		o.Fail("agg_def/"+last.op, line, input)
+		o.Fail(topName, line, input)
 	}
 }
 
-func refWeights(g []srs, ts data_model.Timescale, step int64) []float64 {
+func refWeights(g []srs, ts data_model.Timescale) []float64 {
+	steps := pointSteps(ts)
 	ws := make([]float64, len(g))
 	allND := true
 	for i, s := range g {
 		prev := -math.MaxFloat64
-		for _, v := range s.vals[ts.ViewStartX:ts.ViewEndX] {
+		for j := ts.ViewStartX; j < ts.ViewEndX; j++ {
+			v := s.vals[j]
 			if isNaN(v) {
 				continue
 			}
-			ws[i] += v * v * float64(step)
+			ws[i] += v * v * float64(steps[j])
 			if v < prev {
 				allND = false
 			}
@@ -1306,22 +1537,18 @@ func refWeights(g []srs, ts data_model.Timescale, step int64) []float64 {
 func witnessWorld(counter bool, series ...rawSeries) *world {
 	step := int64(60)
 	start := int64(1700000000) / 3600 * 3600
-	w := &world{start: start, end: start + 3*step, step: step, counter: counter}
-	kind := format.MetricKindValue
-	if counter {
-		kind = format.MetricKindCounter
-	}
-	m := &format.MetricMetaValue{MetricID: 1, Name: "m", Kind: kind, Tags: []format.MetricMetaTag{{}, {Name: "a"}, {Name: "b"}}}
-	_ = m.RestoreCachedInfo()
-	w.st = &stub{metric: m, origin: start - prePad*step, step: step, data: series}
+	w := &world{start: start, end: start + 3*step, step: step, now: start + 4*step, counter: counter}
+	w.st = &stub{metric: newMetric(counter), data: series}
 	w.ng = promql.NewEngine(time.UTC, 0)
 	return w
 }
 
 func constSeries(a, b int64, ev ...int64) rawSeries {
 	rs := rawSeries{tags: [nTags]int64{0, a, b}}
-	for i := 0; i < prePad+6; i++ {
-		rs.slots = append(rs.slots, ev)
+	start := int64(1700000000) / 3600 * 3600
+	for i := int64(-prePad); i < 6; i++ {
+		rs.times = append(rs.times, start+i*60)
+		rs.evs = append(rs.evs, ev)
 	}
 	return rs
 }
@@ -1350,9 +1577,9 @@ func witnesses(o *vu.Out) {
 	o.Finding("F-C27f", differ(witnessWorld(false, constSeries(1, 1, 1, 3)), `stdvar_over_time(m{__what__="stdvar"}[60s])`, `stdvar_over_time(m{__what__="stdvar",__by__="0,1,2"}[60s])`))
 	// F-C27b: quantile with a missing point: series 2 has no row in the second slot
 	w := witnessWorld(false, constSeries(1, 1, 3), constSeries(2, 1, 7))
-	for i := range w.st.data[1].slots {
+	for i := range w.st.data[1].evs {
 		if i%2 == 1 {
-			w.st.data[1].slots[i] = nil
+			w.st.data[1].evs[i] = nil
 		}
 	}
 	r := w.run(`quantile(0, m{__by__="0,1,2"})`)
@@ -1366,6 +1593,24 @@ func witnesses(o *vu.Out) {
 		}
 	}
 	o.Finding("F-C27b", out)
+	// F-C27g: present_over_time: a missing point one step after a present one (inside the range) must be 1
+	w = witnessWorld(false, constSeries(1, 1, 3))
+	for i := range w.st.data[0].evs {
+		if i%2 == 1 {
+			w.st.data[0].evs[i] = nil
+		}
+	}
+	r = w.run(`present_over_time(m{__by__="0,1,2"}[60s])`)
+	out = "error"
+	if r.ok && len(r.series) == 1 {
+		out = "gone"
+		for _, v := range r.series[0].vals {
+			if isNaN(v) {
+				out = "reproduced"
+			}
+		}
+	}
+	o.Finding("F-C27g", out)
 }
 
 var verbose bool
@@ -1385,7 +1630,7 @@ func main() {
 		if i%6 == 0 {
 			w = genWorld(r)
 		}
-		e := genExpr(r, w.step)
+		e := genExpr(r, w.step, w.coarse)
 		if r.Chance(20) {
 			e.by = true
 		}
